@@ -30,7 +30,7 @@ open Ctrmml.Diag
 def kindOf : String → Option Diag.Kind
   | "valid" => some .valid | "unknown-char" => some .unknownChar | "missing-param" => some .missingParam
   | "illegal-duration" => some .illegalDuration | "unterminated-quote" => some .unterminatedQuote
-  | "unterminated-cond" => some .unterminatedCond | "loop-unclosed" => some .loopUnclosed
+  | "unterminated-cond" => some .unterminatedCond | "unterminated-key" => some .unterminatedKey | "loop-unclosed" => some .loopUnclosed
   | "loop-stray-end" => some .loopStrayEnd | "stray-break" => some .strayBreak | "missing-call" => some .missingCall
   | "missing-ins" => some .missingIns | "wrong-ins" => some .wrongIns | "note-range" => some .noteRange
   | "missing-platform" => some .missingPlatform
